@@ -34,6 +34,24 @@ pub fn spec_for(seed: u64, index: u64) -> SysSpec {
         if index % 11 == 7 {
             sysgen::delayed_gate(&mut spec, index / 11);
         }
+        // an array-typed input (a look-up table the environment provides): the witness must give it a value
+        // at every step like any other input
+        if index % 6 == 2 && spec.inputs.len() < 10 {
+            use crate::refsmt::{Op, Ty};
+            use crate::shapes::Sh;
+            let ai = spec.inputs.len() as u8;
+            spec.inputs.push(Ty::Arr(2, 3));
+            spec.anon_inputs.push(false);
+            let rd = Sh::Op(Op::ArrayRead, [0, 0], vec![Sh::Sym(ai, Ty::Arr(2, 3)), Sh::Lit(2, num_bigint::BigUint::from(index % 4))]);
+            spec.outputs.push(("tbl_rd".into(), rd.clone()));
+            if index % 12 == 2 {
+                // and it matters: a bad state needs a particular table entry
+                let hit = Sh::Op(Op::Equal, [0, 0], vec![rd, Sh::Lit(3, num_bigint::BigUint::from(5u32))]);
+                if let Some(b) = spec.bads.first().cloned() {
+                    spec.bads[0] = Sh::Op(Op::And, [0, 0], vec![b, hit]);
+                }
+            }
+        }
         if index % 11 == 5 {
             sysgen::input_bad_state_constraint(&mut spec, index / 11, false);
         }
